@@ -63,7 +63,7 @@ CHECKS = {
    text="MovePicker.tla transcribes MovePicker::next / next_best_move block by block (selection step, hash-move skip, swap-to-front of killers and counter move, bad-capture parking, captures-only variant). TLC checks exhaustively that for every configuration within the bounds (quick <=2 captures x <=3 quiets; thorough <=3x3 and 4x<=2: 6.95 M configurations, 104 M states) the stream at Done is a permutation of the listed moves (loud: duplicate-free and contains all captures), over all weak orderings of capture scores and history values, every threshold position, hash move listed or none, killers and counter move independently listed, none or foreign; every branch action taken; termination by a progress measure. Every stream of the real picker on real positions x adversarial table contents (killers/counter among legal quiets, captures, queen promotions, moves legal only in sibling positions, arbitrary Move values, equal to each other; history ties and saturation; plies 0..254) is judged by TLC against Chess!Legal(pos) and compared with the model's predicted stream.",
    note="Hash move restricted to legal moves or none (the property's quantifier). History values only those reachable through add_bonus_for. A stream that differs from the model's prediction is drift, not a violation.", engine="tla-game"),
  "C14": dict(cat="model_checking", ref="DESIGN.md 4 C14, A.9", tech="TLA+ exact-rational time allocation checked by TLC (grid as initial states) plus a timed poll automaton; TLC-generated grid replayed into TimeStrategy::new via the verif_limits accessor; trace validation on two-limb nanosecond values; wall-clock UCI runs",
-   text="TimeAlloc.tla gives the coded limit formula in exact rational arithmetic (CodeView) and the property's bounds (PropertyView). TLC checks CodeView => PropertyView and no crash inside the domain on a dense grid (remaining 0-10^7 ms, increments, movestogo 1..100, overhead 0..rem/2, either clock missing, movetime). The same grid plus seeded random situations and probes beyond 32 bits are sent as UCI text through the real parser into the real TimeStrategy::new in both build profiles, and every recorded (soft, hard) is validated by TLC against PropertyView (tolerance 2^-22 + 1 us). A timed poll model over all PropertyView-admissible limits shows return-before-flag for clocks >= 200 ms under the measured poll gap and latency. The released binary is timed on go wtime t runs (12 quick / 150 thorough).",
+   text="TimeAlloc.tla gives the coded limit formula in exact rational arithmetic (CodeView) and the property's bounds (PropertyView). TLC checks CodeView => PropertyView and no crash inside the domain on a dense grid (remaining 0-10^7 ms, increments, movestogo 1..100, overhead 0..rem/2, either clock missing, movetime). The same grid plus seeded random situations and probes beyond 32 bits are sent as UCI text through the real parser into the real TimeStrategy::new in both build profiles, and every recorded (soft, hard) is validated by TLC against PropertyView (tolerance 2^-22 + 1 us). A timed poll model over all PropertyView-admissible limits shows return-before-flag for clocks >= 200 ms under the measured poll gap and latency. A sample of the situations (600 quick / 6000 thorough) also goes as text through the UCI loop of the real binary, whose go arm logs the limits it computed (hook note_go); they are judged by the same clauses and compared with the harness's. The released binary is timed on go wtime t runs (12 quick / 150 thorough).",
    note="The wall-clock clause is a measurement on this machine (three-out-of-three rule), tied to the model by the measured MaxPollGap. A missing mover's clock requires only soft <= hard. 'movestogo 0' panics (division by zero) but lies outside the property's domain; it is reported in the evidence under out_of_domain_crashes, not as a violation."),
 }
 
